@@ -356,7 +356,85 @@ pub fn judge(c: &Case, o: &Result<Obs, String>) -> Option<(String, serde_json::V
   None
 }
 
+/// Independence under inputs that differ from one subscription to the next: a cold source that
+/// reads the world when it is subscribed (the k-th subscription plays script k), one stateful
+/// operator above it, three successive subscriptions of clones. Each subscription's output must be
+/// what the list-semantics reference model gives for ITS script: state left behind by an earlier
+/// subscription (which is invisible while all subscriptions see the same input) shows up here.
+fn varying_input_battery(cfg: &Cfg, rep: &mut Report) {
+  let it = |v: &[i64]| -> Vec<N> { v.iter().map(|x| N::Next(V::I(*x))).collect() };
+  let mut scripts: Vec<Vec<N>> = vec![];
+  for items in [vec![], vec![1], vec![1, 2], vec![2, 0, 1], vec![0, 0]] {
+    for term in [Some(N::Complete), Some(N::Err(5)), None] {
+      let mut s = it(&items);
+      s.extend(term);
+      scripts.push(s);
+    }
+  }
+  let ops = crate::gen::single_op_variants(1);
+  let mut k = 0usize;
+  for op in &ops {
+    for a in 0..scripts.len() {
+      for b in 0..scripts.len() {
+        k += 1;
+        if a == b || !cfg.mine(k) {
+          continue;
+        }
+        let id = format!("varying:{}", k);
+        if !cfg.wants(&id) {
+          continue;
+        }
+        let plays = vec![scripts[a].clone(), scripts[b].clone(), scripts[a].clone()];
+        let chain = Chain::new(Src::Varying(plays.clone()), vec![op.clone()]);
+        let expected: Option<Vec<Vec<Vec<N>>>> = plays.iter().map(|p| crate::model::allowed_outputs(&Chain::new(Src::CreateSync(p.clone()), vec![op.clone()]), &[])).collect();
+        let Some(expected) = expected else { continue };
+        rep.evaluations += 1;
+        rep.count("subscriptions_fed_different_inputs", 1);
+        rep.set("operators_covered", op.name());
+        let got = catch(|| {
+          let w = World::new(Flavor::Local, 0);
+          let cx = cloneable::Ctx { hot: vec![], stash: w.l.stash.clone(), sched: w.l.sched.clone(), log: w.log.clone(), base: w.l.base };
+          let o = cloneable::build(&chain, &cx);
+          let clones: Vec<_> = (0..3).map(|_| o.clone()).collect();
+          drop(o);
+          let mut out = vec![];
+          for (j, cl) in clones.into_iter().enumerate() {
+            let u = cl.actual_subscribe(Probe::new(1 + j as u32, &w.log));
+            out.push(w.log.notes(1 + j as u32));
+            // an unterminated subscription is given up before the next one starts
+            u.unsubscribe();
+          }
+          let ev = w.log.len();
+          w.teardown();
+          (out, ev)
+        });
+        match got {
+          Err(p) => rep.violation("panic", &format!("{}[varying input]", op.name()), &id, json!({"chain": chain.show(), "panic": p})),
+          Ok((out, ev)) => {
+            rep.events += ev as u64;
+            let bad = (0..3).find(|j| !expected[*j].contains(&out[*j]));
+            if let Some(j) = bad {
+              rep.violation(
+                "subscription_depends_on_an_earlier_one",
+                &format!("{}[varying input]", op.name()),
+                &id,
+                json!({"chain": chain.show(), "subscription": j, "its_input": jn(&plays[j]), "observed": jn(&out[j]), "expected_one_of": expected[j].iter().map(|e| jn(e)).collect::<Vec<_>>(),
+                       "inputs_of_all_three": plays.iter().map(|p| jn(p)).collect::<Vec<_>>()}),
+              );
+            } else {
+              rep.nontrivial.insert(hash64(&(op, a, b, "varying")));
+            }
+          }
+        }
+      }
+    }
+  }
+}
+
 pub fn run(cfg: &Cfg, rep: &mut Report) {
+  if cfg.only_case.as_deref().map_or(true, |c| c.starts_with("varying:")) {
+    varying_input_battery(cfg, rep);
+  }
   let total = cfg.n(400_000, 25_000_000);
   let max_ops = cfg.n(3, 5);
   let mut rng = Rng::new(cfg.seed ^ 0xC13);
